@@ -176,7 +176,7 @@ func (model *ProtDistModel) opt_Dist_F(dist float64, F *mat.Dense) float64 {
 	cx = BL_MAX
 
 	optdist = dist
-	model.dist_F_Brent(ax, bx, cx, 1.E-10, 1000, &optdist, F)
+	model.dist_F_Brent(ax, bx, cx, 1.E-7, 1000, &optdist, F)
 	return optdist
 }
 
@@ -186,9 +186,6 @@ func (model *ProtDistModel) dist_F_Brent(ax, bx, cx, tol float64, n_iter_max int
 	var curr_lnL float64
 	var e float64
 	e = 0.0
-
-	//optimize distance, not likelihood
-	var old_param, cur_param float64
 
 	d = 0.0
 	if ax < cx {
@@ -207,16 +204,15 @@ func (model *ProtDistModel) dist_F_Brent(ax, bx, cx, tol float64, n_iter_max int
 	fx = fw
 	curr_lnL = -fw
 
-	old_param = math.Abs(bx)
-	cur_param = math.Abs(bx)
-
 	for iter = 1; iter <= BRENT_ITMAX; iter++ {
 		xm = 0.5 * (a + b)
 
 		tol1 = tol*math.Abs(x) + BRENT_ZEPS
 		tol2 = 2.0 * tol1
 
-		if (iter > 1) && math.Abs(old_param-cur_param) < 1.E-06 {
+		// converged when the bracket [a,b] around x is smaller than the tolerance
+		// (two successive trial distances may be close long before that)
+		if math.Abs(x-xm) <= (tol2 - 0.5*(b-a)) {
 			*param = x
 			curr_lnL = model.lk_Dist(F, *param)
 			return -curr_lnL
@@ -300,8 +296,6 @@ func (model *ProtDistModel) dist_F_Brent(ax, bx, cx, tol float64, n_iter_max int
 				fv = fu
 			}
 		}
-		old_param = cur_param
-		cur_param = *param
 	}
 
 	panic("Too many iterations in BRENT.")
